@@ -20,7 +20,8 @@ namespace Biogo.BytesFeat
 
 abbrev Bytes := List UInt8
 
-def ofString (s : String) : Bytes := s.toUTF8.toList
+/-- bytes of an ASCII string literal (keywords and separators of the formats) -/
+def ofString (s : String) : Bytes := s.toList.map fun c => UInt8.ofNat c.toNat
 
 /-! ### white space -/
 
